@@ -79,6 +79,19 @@ func (p SetPattern) Bind(ctx context.Context, local Scope, value Value) (context
 					return ctx, EmptyScope, fmt.Errorf("item %s is not included in set %s", v, value)
 				}
 				set = set.Without(v.(Value))
+			} else {
+				// Any other parenthesised expression or string literal, e.g. `{"a", (1 + 1), ...t}`.
+				if len(t.exprs) != 1 {
+					return ctx, EmptyScope, fmt.Errorf("item type %s is not supported yet", t)
+				}
+				v, err := t.exprs[0].Eval(ctx, local)
+				if err != nil {
+					return ctx, EmptyScope, err
+				}
+				if !set.Has(v) {
+					return ctx, EmptyScope, fmt.Errorf("item %s is not included in set %s", v, value)
+				}
+				set = set.Without(v)
 			}
 		default:
 			if len(p.patterns) == 1 {
